@@ -3,10 +3,12 @@
 package main
 
 import (
+	"bytes"
 	"crypto/sha256"
 	"encoding/hex"
 	"fmt"
 	"go/ast"
+	"go/printer"
 	"go/token"
 	"strconv"
 	"strings"
@@ -121,6 +123,34 @@ func stmtsSrc(b *ast.BlockStmt) []string {
 		out = append(out, strings.Join(strings.Fields(Src(s)), " "))
 	}
 	return out
+}
+
+// the statements of a body printed without the comments inside them
+func bodyNoComments(fd *ast.FuncDecl) string {
+	if fd == nil || fd.Body == nil {
+		return ""
+	}
+	// doc comments are part of the declaration nodes: detach them
+	ast.Inspect(fd.Body, func(n ast.Node) bool {
+		switch x := n.(type) {
+		case *ast.GenDecl:
+			x.Doc = nil
+		case *ast.ValueSpec:
+			x.Doc, x.Comment = nil, nil
+		case *ast.TypeSpec:
+			x.Doc, x.Comment = nil, nil
+		case *ast.Field:
+			x.Doc, x.Comment = nil, nil
+		}
+		return true
+	})
+	var out []string
+	for _, st := range fd.Body.List {
+		var b bytes.Buffer
+		printer.Fprint(&b, token.NewFileSet(), st)
+		out = append(out, strings.Join(strings.Fields(b.String()), " "))
+	}
+	return strings.Join(out, " ; ")
 }
 
 func bodySrc(fd *ast.FuncDecl) string {
@@ -396,9 +426,40 @@ func init() {
 		}
 		e.P("/-- av/codec/aac/asc.go Decode: the 11-bit sync extension types compared against Peek(11) / Read(11) -/")
 		e.P("def aacSyncExtTypes : List Nat := %s", natList(syncs))
+
+		// ---------------- the MetadataIsReady shortcuts and the SDP fmtp extraction ----------------
+		// (Model/MetaReady.lean: nothing is stored when Decode fails; the sets of the SDP are stored, then MetadataIsReady runs)
+		shape := func(name, file, recv, fn string, want ...string) {
+			b := bodyNoComments(FuncDecl(Parse(file), recv, fn))
+			e.P("/-- %s %s: the statements of the body -/", file, fn)
+			e.P("def %sBody : String := %s", name, LeanStr(b))
+			ok := false
+			for _, w := range want {
+				ok = ok || b == w
+			}
+			if !ok {
+				e.Unknown(name + ".shape")
+			}
+			e.P("def %sStd : Bool := %s", name, LeanBool(ok))
+		}
+		shape("h264Ready", "av/codec/h264/shortcut.go", "", "MetadataIsReady", h264ReadyStd)
+		shape("hevcReady", "av/codec/hevc/shortcut.go", "", "MetadataIsReady", hevcReadyStd)
+		shape("aacReady", "av/codec/aac/shortcut.go", "", "MetadataIsReady", aacReadyStd)
+		shape("sdpH264Sets", "av/format/sdp/parsemeta.go", "", "parseH264SpsPps", sdpH264SetsStd)
+		shape("sdpH265Sets", "av/format/sdp/parsemeta.go", "", "parseH265VpsSpsPps", sdpH265SetsStd)
+		shape("hevcFixedRate", "av/codec/hevc/sps.go", "H265RawSPS", "IsFixedFrameRate", "return sps.FrameRate() > 0")
+		shape("hevcFrameRate", "av/codec/hevc/sps.go", "H265RawSPS", "FrameRate", "if sps.Vui.Vui_num_units_in_tick == 0 { return 0.0 } ; return float64(sps.Vui.Vui_time_scale) / float64(sps.Vui.Vui_num_units_in_tick)")
+		shape("h264FixedRate", "av/codec/h264/sps.go", "RawSPS", "IsFixedFrameRate", "return sps.Vui.FixedFrameRateFlag == 1")
 		_ = fmt.Sprint
 	})
 }
+
+// the shapes Model/MetaReady.lean describes
+const h264ReadyStd = "sps := vm.Sps ; pps := vm.Pps ; if len(sps) == 0 || len(pps) == 0 { return false } ; if vm.Width == 0 { var rawsps RawSPS if err := rawsps.Decode(sps); err != nil { return false } vm.Width = rawsps.Width() vm.Height = rawsps.Height() vm.FixedFrameRate = rawsps.IsFixedFrameRate() vm.FrameRate = rawsps.FrameRate() } ; return true"
+const hevcReadyStd = "vps := vm.Vps ; sps := vm.Sps ; pps := vm.Pps ; if len(vps) == 0 || len(sps) == 0 || len(pps) == 0 { return false } ; if vm.Width == 0 { var rawsps H265RawSPS if err := rawsps.Decode(sps); err != nil { return false } vm.Width = rawsps.Width() vm.Height = rawsps.Height() vm.FixedFrameRate = rawsps.IsFixedFrameRate() vm.FrameRate = rawsps.FrameRate() } ; return true"
+const aacReadyStd = "config := am.Sps ; if len(config) == 0 { return false } ; if am.SampleRate == 0 { var asc AudioSpecificConfig if err := asc.Decode(config); err != nil { return false } am.Channels = int(asc.Channels) am.SampleRate = asc.SampleRate if asc.ExtSampleRate > 0 { am.SampleRate = asc.ExtSampleRate } am.SampleSize = 16 } ; return true"
+const sdpH264SetsStd = "rest, spsStr, ok := scan.Comma.Scan(s) ; if !ok { return } ; _, ppsStr, _ := scan.Comma.Scan(rest) ; sps, err := base64.StdEncoding.DecodeString(spsStr) ; if err == nil { video.Sps = utils.RemoveNaluSeparator(sps) } ; pps, err := base64.StdEncoding.DecodeString(ppsStr) ; if err == nil { video.Pps = utils.RemoveNaluSeparator(pps) } ; _ = h264.MetadataIsReady(video)"
+const sdpH265SetsStd = "var advance, token string ; continueScan := true ; advance = s ; for continueScan { advance, token, continueScan = scan.Semicolon.Scan(advance) name, value, ok := scan.EqualPair.Scan(token) if ok { switch name { case \"sprop-vps\", \"sprop-sps\", \"sprop-pps\": default: continue } var ps []byte var err error if ps, err = base64.StdEncoding.DecodeString(value); err != nil { return } ps = utils.RemoveNaluSeparator(ps) switch name { case \"sprop-vps\": video.Vps = ps case \"sprop-sps\": video.Sps = ps case \"sprop-pps\": video.Pps = ps } } } ; _ = hevc.MetadataIsReady(video)"
 
 // the shapes of the repaired functions (kept in step with the 'fix:' commits in /repo)
 const hevcStRpsOldSha = "14c86a457a06877b428070b7d72f41026de14c12559d18b3c56043daf5e5df2e"
